@@ -488,11 +488,15 @@ class OperatorProgram:
             kind = h['kind']
             res = h.get('resource', self.spec.get('resource', 'kopfexamples'))
             sel = res if isinstance(res, (list, tuple)) else [res]
+            sel = [kopf.EVERYTHING if x == '@everything' else x for x in sel]
+            selkw = dict(h.get('resource_kw') or {})      # kind=/plural=/singular=/shortcut=/category=/group=/version=
+            if selkw and 'resource' not in h:
+                sel = []
             if kind in ('startup', 'cleanup'):
                 deco = getattr(kopf.on, kind)(registry=reg, id=h['id'], **self._common(h))
                 deco(self._make_activity(h, kind))
             elif kind == 'event':
-                kopf.on.event(*sel, registry=reg, id=h['id'], **self._filters(h))(self._make_plain(h, 'event'))
+                kopf.on.event(*sel, registry=reg, id=h['id'], **selkw, **self._filters(h))(self._make_plain(h, 'event'))
             elif kind == 'index':
                 kopf.index(*sel, registry=reg, id=h['id'], **self._common(h), **self._filters(h))(self._make_index(h))
             elif kind in ('create', 'update', 'delete', 'resume', 'field'):
@@ -501,7 +505,7 @@ class OperatorProgram:
                     extra['optional'] = h['optional']
                 if kind == 'resume' and h.get('deleted') is not None:
                     extra['deleted'] = h['deleted']
-                deco = getattr(kopf.on, kind)(*sel, registry=reg, id=h['id'], **self._common(h), **extra,
+                deco = getattr(kopf.on, kind)(*sel, registry=reg, id=h['id'], **selkw, **self._common(h), **extra,
                                               **self._filters(h, oldnew=kind in ('update', 'field')))
                 fn = self._make_plain(h, kind)
                 deco(fn)
